@@ -288,8 +288,24 @@ def parameter_standards(chk, exe, rng, reps):
     for _ in range(reps):
         for typ in calsim.TYPES:
             sc = c02.Sc(rng, typ, 2, 2, rng.randint(1, 2), form=rng.choice(['m', 'ab'])).begin()
+            # churn: the parameters of a standard are deleted as soon as the standard is added (the vnacal_new_t keeps them), scratch
+            # parameters nothing uses are made and deleted in between: freed handles are handed out again, handles still in use are not
+            churn = rng.random() < 0.5
+            used, held, scratch = {0, 1, 2}, set(), []
+
+            def mk(v, sc=sc, used=used):
+                sc.lines.append('cal make_scalar %d %s' % (sc.c, vlib.c2h(complex(v))))
+                hd = min(x for x in range(len(used) + 1) if x not in used)
+                used.add(hd)
+                sc.next_handle = max(sc.next_handle, hd + 1)
+                return hd
+
+            def rm(hd, sc=sc, used=used, held=held):
+                sc.lines.append('cal delete_parameter %d %d' % (sc.c, hd))
+                if hd not in held:
+                    used.discard(hd)
             for _ in range(rng.choice([0, 0, 3, 5, 11])):
-                sc.scalar(calsim.rc(rng, 0.5) + 2.0)          # other parameters of the vnacal_t: the handles below shift
+                scratch.append(mk(calsim.rc(rng, 0.5) + 2.0))          # other parameters of the vnacal_t: the handles below shift
             stds = []
             for _ in range(3 if typ in ('T16', 'U16') else 2):
                 S2 = [[calsim.rc(rng, 0.4), calsim.rc(rng, 0.4) + 0.6], [calsim.rc(rng, 0.4) + 0.6, calsim.rc(rng, 0.4)]]
@@ -302,7 +318,17 @@ def parameter_standards(chk, exe, rng, reps):
             for s_ in stds:
                 if s_[0] == 'tp':
                     S2 = s_[1]
-                    sc.line(1, 2, tuple(sc.scalar(S2[a][b]) for a in (0, 1) for b in (0, 1)), S2)
+                    if churn and rng.random() < 0.7:
+                        scratch.append(mk(calsim.rc(rng, 0.5) + 2.0))
+                    hs = tuple(mk(S2[a][b]) for a in (0, 1) for b in (0, 1))
+                    sc.line(1, 2, hs, S2)
+                    held.update(hs)
+                    if churn:
+                        for hd in rng.sample(hs, rng.randint(2, 4)):
+                            rm(hd)
+                        for hd in rng.sample(scratch, min(len(scratch), rng.randint(1, 2))):
+                            scratch.remove(hd)
+                            rm(hd)
                 elif s_[0] == 'refl':
                     sc.line(1, 2, (s_[1], 0, 0, s_[2]), [[calsim.GAMMA[s_[1]], 0], [0, calsim.GAMMA[s_[2]]]])
                 else:
@@ -312,7 +338,8 @@ def parameter_standards(chk, exe, rng, reps):
             sc.lines += [sc.apply_line(0, dut), 'cal free 0', 'cal live']
             out, rc, err = vlib.run_lines(exe, sc.lines, timeout=600)
             chk.evaluations += 1
-            tag = '%s 2x2 %s, standards through %d parameter handles' % (typ, sc.form, sc.next_handle - 3)
+            tag = '%s 2x2 %s, standards through %d parameter handles%s' % (typ, sc.form, sc.next_handle - 3, ', parameters deleted and handles reused in between' if churn else '')
+            chk.count('params_churn' if churn else 'params_plain')
             if rc != 0 or len(out) != len(sc.lines):
                 chk.violation('sanitizer-params', '%s: crash / sanitizer report:\n%s' % (tag, err[-1200:]), sc.lines[:len(out) + 1])
                 return
@@ -326,7 +353,7 @@ def parameter_standards(chk, exe, rng, reps):
                 chk.violation('apply-params', '%s: vnacal_apply does not recover the device: max |S - S_true| = %.3e' % (tag, e), sc.lines[:-2])
                 return
             chk.count('apply_params_ok')
-            chk.distinct.add(('params', typ, sc.next_handle))
+            chk.distinct.add(('params', typ, sc.next_handle, churn))
 
 
 def smooth_offgrid(chk, exe, rng, reps):
